@@ -60,7 +60,7 @@ def run_body(rep, r, wd, quick):
     for _ in range(40 if quick else 1000):         # larger random graphs with cycles
         progs_.append(vprogs.random_prog(r, nmem=r.choice([3, 4]), nplain=r.choice([1, 2, 3]), nvar=1, hidden_p=0.0,
                                          forms=("bare", "attr", "alias", "wrapped", "wrapped2"), acyclic=False,
-                                         twins_p=0.2, deco_p=0.5))
+                                         twins_p=0.2, deco_p=0.5, init_p=0.5))
     for p in progs_:
         mems = [n["name"] for n in p["nodes"] if n["kind"] == "mem"]
         jobs.append({"prog": p, "steps": [{"do": "proc", "hashseed": "0"}] + [{"do": "deps", "name": m_} for m_ in mems]})
